@@ -58,6 +58,14 @@ CLAIMED = {
    "Differential simulation: the same scenario run at the same simulated instants with buffer sources and with Read+Seek streams under seeded short-read schedules (1 byte, fixed, random, BufReader-like) or real temp files; packet sequences must be byte-identical.",
    "cenc null only (streams are not content-encoded by flute)",
    "deterministic differential simulation with short-read fault injection at the Read seam"),
+ "C10": ("exploration", "4.C10",
+   "Seeded add/remove/publish/set_complete/read histories on a virtual clock (12 s to minutes of simulated time) with hostile metadata, OTI overrides, cache-control, groups, ids near the 2^20 wrap, durations 1 s - 3 days, both publish modes, FDT cenc; every TOI-0 object is reassembled from the wire and read by the harness's own XML reader; oracle: well-formedness, id sequence and uniqueness, announced set and every attribute at publish time, Expires, supersede-before-expiry, and agreement with flute's own receiver.",
+   "publication-event matching as described in the evidence rule; three recorded known findings (short durations republish late; literal TAB/CR/LF in attributes)",
+   "deterministic simulation of the sender on a virtual clock + FDT reference model + independent XML reader"),
+ "C17": ("exploration", "4.C17",
+   "Seeded adversarial traffic (no FDT with in-band FTI, no FDT with FDT-only OTI, one symbol missing per block, thousands of TOIs / FDT instance ids / sessions; 20x more traffic than the configured cache) into the real receiver under a counting global allocator and the simulated monotonic clock; oracle: held bytes bounded by configuration, object abandoned and counted, error list bounded, everything released after timeouts + cleanup.",
+   "bookkeeping allowances as stated in the evidence; hook H1 faithful",
+   "deterministic simulation with adversarial traffic + heap accounting (counting allocator) + simulated timeouts"),
 }
 NOT_APPLICABLE = {
  "C06": "pure codec function of its input (encode/parse of one packet): no schedule, clock, fault or interleaving to simulate; deciding it is input enumeration, not simulation (DESIGN.md s5)",
